@@ -17,7 +17,7 @@ pub fn property() -> Property {
     Property {
         id: "C08",
         level: "exploration",
-        rule: "Bounded-exhaustive configuration matrix: scheme {http, https} x host {domain, IDN, IPv4, IPv6} x port {absent, scheme default written explicitly, non-default} x path {empty, /, deep, percent-encoded} x query {none, some} x fragment {none, some} x URL userinfo {none, user, user:pass} x proxy {none, http, https} x proxy userinfo {none, some} x proxy port {default, explicit} x caller-set Host header {none, bogus}. Observed: the address handed to the connector (hook H1 dial log: scheme, host, port, TLS name) and the request bytes received by the peer - for https-via-proxy the request is decrypted by a live TLS server behind the scripted CONNECT reply (bridge mode, certificate checks waived for this property). Oracle: reference function (URL, proxy settings) -> (dial host, port, target form, Host) written from the statement: proxy if one is selected else URL host + effective port; origin-form for direct and tunnelled, absolute-form for http via proxy; no fragment, no userinfo in the target; exactly one Host == host[:non-default port] (IPv6 bracketed) for direct and tunnelled requests. Non-trivial: every configuration; distinct = hash(URL, proxy URL, caller Host).",
+        rule: "Bounded-exhaustive configuration matrix: scheme {http, https} x host {domain, IDN, IPv4, IPv6} x port {absent, scheme default written explicitly, non-default} x path {empty, /, deep, percent-encoded} x query {none, some} x fragment {none, some} x URL userinfo {none, user, user:pass} x proxy {none, http, https} x proxy userinfo {none, some} x proxy port {default, explicit} x caller-set Host header {none, bogus}. Observed: the address handed to the connector (hook H1 dial log: scheme, host, port, TLS name) and the request bytes received by the peer - for https-via-proxy the request is decrypted by a live TLS server behind the scripted CONNECT reply (bridge mode, certificate checks waived for this property). Oracle: reference function (URL, proxy settings) -> (dial host, port, target form, Host) written from the statement: proxy if one is selected else URL host + effective port; origin-form for direct and tunnelled, absolute-form for http via proxy; no fragment, no userinfo in the target; exactly one Host == host[:non-default port] (IPv6 bracketed) for direct and tunnelled requests - whatever Host fields the caller supplied {none, one, two on the request, one on the session + one appended}. The 'redirected' generator judges the second request of a 307 (Location plain, or carrying credentials and a fragment) and both requests of a second send() of the same PreparedRequest with the same reference. Non-trivial: every configuration; distinct = hash(URL, proxy URL, caller Host).",
         assumptions: &["the Host field of a plain-http request sent through a proxy is recorded but not judged (the statement fixes it for direct and tunnelled requests only)", "tunnelled rows: the proxy side of CONNECT is judged by C12, here only what travels inside the tunnel"],
         min_nontrivial: |t| t.pick(3_000, 20_000),
         gens,
@@ -35,7 +35,9 @@ const USERINFO: [&str; 5] = ["", "user@", "user:p%40ss@", ":tok%40en@", "user:@"
 const PROXIES: [&str; 3] = ["", "http", "https"];
 const PROXY_USERINFO: [&str; 2] = ["", "puser:ppass@"];
 const PROXY_PORT: [&str; 2] = ["", ":3128"];
-const CALLER_HOST: [&str; 2] = ["", "bogus.example:99"];
+/// Host fields supplied by the caller: none; one; two on the request (set + append); one on the
+/// session plus one appended on the request. The library's own Host replaces all of them.
+const CALLER_HOST: [&str; 4] = ["", "bogus.example:99", "bogus.example:99+second.example", "session:bogus.example:99+second.example"];
 
 fn matrix() -> u64 {
     (2 * HOSTS.len() * PORTS.len() * PATHS.len() * QUERIES.len() * FRAGMENTS.len() * USERINFO.len() * PROXIES.len() * PROXY_USERINFO.len() * PROXY_PORT.len() * CALLER_HOST.len()) as u64
@@ -45,7 +47,7 @@ fn gens(tier: Tier) -> Vec<Gen> {
     vec![
         // plain rows are cheap: whole matrix in both tiers; tunnel rows (TLS handshakes) are strided in quick
         Gen { name: "matrix", count: matrix(), exhaustive: true, run: run_matrix },
-        Gen { name: "redirected", count: (REDIR_URLS.len() * REDIR_URLS.len() * 3) as u64, exhaustive: true, run: run_redirected },
+        Gen { name: "redirected", count: (REDIR_URLS.len() * REDIR_URLS.len() * 3 * 2) as u64, exhaustive: true, run: run_redirected },
         Gen { name: "tunnel-rows", count: tier.pick(400, (matrix() / 3) as u64), exhaustive: tier == Tier::Thorough, run: run_tunnel_rows },
     ]
 }
@@ -66,7 +68,7 @@ fn decode(index: u64) -> Config {
         i /= n;
         r
     };
-    let caller_host = CALLER_HOST[take(2)];
+    let caller_host = CALLER_HOST[take(CALLER_HOST.len())];
     let pport = PROXY_PORT[take(2)];
     let puser = PROXY_USERINFO[take(2)];
     let proxy_kind = PROXIES[take(3)];
@@ -149,9 +151,19 @@ fn builder(cfg: &Config) -> RequestBuilder {
         let pu = Url::parse(p).unwrap();
         ps = ps.http_proxy(pu.clone()).https_proxy(pu);
     }
-    let mut rb = attohttpc::get(&cfg.url).proxy_settings(ps.build()).danger_accept_invalid_certs(true).danger_accept_invalid_hostnames(true);
-    if !cfg.caller_host.is_empty() {
-        rb = rb.header("Host", cfg.caller_host);
+    let mut sess = attohttpc::Session::new();
+    let on_session = cfg.caller_host.strip_prefix("session:");
+    let hosts: Vec<&str> = on_session.unwrap_or(cfg.caller_host).split('+').filter(|h| !h.is_empty()).collect();
+    if on_session.is_some() {
+        sess.header("Host", hosts[0]);
+    }
+    let mut rb = sess.get(&cfg.url).proxy_settings(ps.build()).danger_accept_invalid_certs(true).danger_accept_invalid_hostnames(true);
+    for (i, h) in hosts.iter().enumerate() {
+        if i == 0 && on_session.is_none() {
+            rb = rb.header("Host", *h);
+        } else if i > 0 {
+            rb = rb.header_append("Host", *h);
+        }
     }
     rb
 }
@@ -309,7 +321,13 @@ fn run_redirected(ctx: &mut Ctx, _rng: &mut Rng, index: u64) {
     if proxy_kind == 2 {
         ps = ps.add_no_proxy_host(to_url.host_str().unwrap());
     }
-    let to2 = to.to_owned();
+    // half of the runs: the Location itself carries credentials and a fragment (neither may
+    // show up in the second request's target)
+    let decorated = (index as usize / (n * n * 3)) % 2 == 1;
+    let to2 = if decorated { format!("{}#sec/tion?3", to.replacen("://", "://bob:hunter2@", 1)) } else { to.to_owned() };
+    if decorated {
+        ctx.count("redirect_locations_with_credentials_and_fragment", 1);
+    }
     let world = World::install(move |_, idx, _| {
         let resp = if idx % 2 == 0 { format!("HTTP/1.1 307 Temporary Redirect\r\nLocation: {to2}\r\nContent-Length: 0\r\n\r\n").into_bytes() } else { OK_RESPONSE.to_vec() };
         Answer::Script(vec![Step::Data(resp)], WriteFaults::default())
